@@ -263,7 +263,7 @@ func (in *Interp) assert(label string, c *Term) {
 		// not preserve invalid UTF-8); this only selects among models, it never changes a verdict
 		if label == "witness" || strings.HasPrefix(label, "witness:") {
 			// reachability twins are never replayed: any model will do
-		} else if r2, m2 := in.sol.Check(append(in.niceStrings(), in.ts.Not(c)), true); r2 == Sat {
+		} else if r2, m2 := in.sol.CheckBrief(append(in.niceStrings(), in.ts.Not(c)), true, 5000); r2 == Sat {
 			m = m2
 		}
 		ar.Model = m
